@@ -139,8 +139,36 @@ func (c *Ctx) finishMaybe(start time.Time, onlyKey, cmdline string, noEvidence b
 }
 
 func installAccessorResolver(p *Program) {
+	theProgram = p
 	for _, pk := range p.All {
 		buildAliasTable(pk.TypesInfo, pk.Syntax)
+		// a struct type held in two fields of one struct (screenNext, screenLast *screen) cannot anchor a path:
+		// the path must say which of the two it goes through
+		for _, nm := range pk.Types.Scope().Names() {
+			tn, ok := pk.Types.Scope().Lookup(nm).(*types.TypeName)
+			if !ok {
+				continue
+			}
+			st, ok := tn.Type().Underlying().(*types.Struct)
+			if !ok {
+				continue
+			}
+			count := map[*types.TypeName]int{}
+			for i := 0; i < st.NumFields(); i++ {
+				t := st.Field(i).Type()
+				if pt, ok := t.(*types.Pointer); ok {
+					t = pt.Elem()
+				}
+				if n, ok := t.(*types.Named); ok {
+					count[n.Obj()]++
+				}
+			}
+			for o, k := range count {
+				if k > 1 {
+					ambiguousAnchor[o] = true
+				}
+			}
+		}
 	}
 	evals := map[*types.Info]*strEval{}
 	stringResolver = func(info *types.Info, call *ast.CallExpr) (string, bool) {
